@@ -174,6 +174,9 @@ func evalC04(c *Ctx, cs *Case) {
 			c.Count("failed_calls_before", 4)
 			o := OutputMD(doc, encOpt[enc])
 			check("OutputFromMarkdown", enc, o.Out, o, merged)
+			// the non-iterator code path with the same encoding
+			no := OutputMD(doc, encOpt[enc], gtree.WithNoUseIterOfSimpleOutput())
+			check("OutputFromMarkdown+NoIter", enc, no.Out, no, merged)
 			// the deprecated aliases with the same option
 			aw := mon.NewRecWriter()
 			ao := Guard(func() error { return gtree.Output(aw, strings.NewReader(doc), encOpt[enc]) })
